@@ -176,6 +176,16 @@ impl PolicyEngine for VPolicy {
             };
             let ans = op(&w, "pol.next", call).await;
             let dt = Duration::from_secs(ans["dt"].as_u64().unwrap_or(3600));
+            // "abs": an absolute deadline (seconds after the start of the world) instead of one relative to now:
+            // a policy of the "every day at 03:00" kind returns the SAME timing on consecutive iterations
+            let (wall, mono) = match ans.get("abs").and_then(|x| x.get(0)).and_then(|x| x.as_u64()) {
+                Some(a) => {
+                    let g = lk(&w);
+                    (crate::world::base_wall() + Duration::new(a, crate::world::SUB_NS), g.i0 + Duration::from_secs(a))
+                }
+                None => (wall, mono),
+            };
+            let dt = if ans.get("abs").and_then(|x| x.get(0)).is_some() { Duration::from_secs(0) } else { dt };
             let time = match ans["kind"].as_str() {
                 Some("wall") => PartialComplexTime::Wall(wall + dt),
                 Some("mono") => PartialComplexTime::Monotonic(mono + dt),
